@@ -69,6 +69,8 @@ type interpreter struct {
 	depth    int
 	params   map[string]value // parameter table (verifrt.Param)
 	hostData map[string]interface{}
+	// remaining conversions of target values to host values for one fmt call
+	hostArgBudget int
 }
 
 type deferred struct {
